@@ -866,6 +866,7 @@ pub fn gen_cfg(rng: &mut Rng) -> (AuthCfg, Disc, Option<bool>) {
         },
         hmac: *rng.pick(&[HmacCfg::None, HmacCfg::UvOnly, HmacCfg::WithoutUv]),
         hmac_mc: rng.bool(),
+        transports: *rng.pick(&[0u8, 0, 0, 1, 2, 3]),
     };
     let disc = *rng.pick(&[Disc::Full, Disc::Full, Disc::Forced, Disc::OnlyNonDiscoverable]);
     let ve = *rng.pick(&[Some(true), Some(true), Some(true), Some(false), None]);
